@@ -27,14 +27,15 @@ EXTENDS Naturals, Sequences, SequencesExt, FiniteSets, TLC, Json, IOUtils
 Doc == JsonDeserialize(IOEnv.TRACE_FILE)
 P == Doc.project
 Units == P.units              \* sequence of [id, lang, file, path]
-Methods == P.methods          \* sequence of [id, unit, name, calls (ids), flow (a source->sink flow lives in it)]
+Methods == P.methods          \* sequence of [id, unit, name, attrs, calls (ids), flow (a source->sink flow lives in it)]
 Pool == P.pool                \* sequence of rules [lang, unit_name, unit_path, method_list, name_hits (unit ids), path_hits (unit ids)]
 
 UnitOf(m) == CHOOSE u \in ToSet(Units) : u.id = m.unit
 UnitMatch(r, u) == /\ (r.lang = "" \/ r.lang = u.lang)
                    /\ (r.unit_name = "" \/ u.id \in ToSet(r.name_hits))
                    /\ (r.unit_path = "" \/ u.id \in ToSet(r.path_hits))
-MethodMatch(r, m) == r.method_list = << >> \/ m.name \in ToSet(r.method_list)
+MethodMatch(r, m) == /\ (r.method_list = << >> \/ m.name \in ToSet(r.method_list))
+                     /\ ToSet(r.attrs) \subseteq ToSet(m.attrs)          \* every attribute (decorator) the rule lists is on the method
 Selected(R) == {m.id : m \in {x \in ToSet(Methods) : \E k \in R : UnitMatch(Pool[k], UnitOf(x)) /\ MethodMatch(Pool[k], x)}}
 
 (* methods reachable from a set of entries through the project's calls *)
